@@ -1,9 +1,10 @@
 (* Dispatch table of the extracted model executable: one command per modelled function. *)
-From FV Require Import Base.Prelude Model.ScriptBlocks Model.MathFuncs gen.MathTable Cpp.IR Cpp.Exec.
+From FV Require Import Base.Prelude Model.ScriptBlocks Model.MathFuncs gen.MathTable Cpp.IR Cpp.Exec Model.Lowering.
 
 Definition dispatch (cmd : string) (arg : sexp) : sexp :=
   if String.eqb cmd "c15.gen" then ScriptBlocks.run_gen arg
   else if String.eqb cmd "c12.audit" then MathFuncs.audit math_env documented
   else if String.eqb cmd "cpp.print" then IR.run_print arg
   else if String.eqb cmd "cpp.run" then Exec.run_run arg
+  else if String.eqb cmd "c04.recognise" then Lowering.run_recognise arg
   else s_tag "unknown-command" [SAtom cmd].
